@@ -96,6 +96,7 @@ type World struct {
 	clients    map[string]*connect.Client[Msg, Msg]
 	algos      []*algo
 	pools      *pools
+	poolStats  poolStats
 	recoverErr func(o *CallObs, v any) error
 }
 
@@ -105,7 +106,7 @@ func stepsNow(s *core.Sched) int { return s.Steps }
 
 func NewWorld(s *core.Sched, sc *Scenario) *World {
 	w := &World{S: s, Sc: sc, Net: &simhttp.Net{S: s}, byID: map[string]*CallObs{}, clients: map[string]*connect.Client[Msg, Msg]{}}
-	w.pools = &pools{fifo: sc.PoolFIFO}
+	w.pools = newPools(sc.PoolFIFO)
 	setPools(w.pools)
 	for i := range sc.Handlers {
 		w.handlers = append(w.handlers, w.buildHandlers(i, &sc.Handlers[i]))
@@ -114,6 +115,7 @@ func NewWorld(s *core.Sched, sc *Scenario) *World {
 		o := &CallObs{Plan: p, CancelStep: -1}
 		c := &simhttp.Call{ID: p.ID, S: s, K: p.K, YieldOn: p.YieldOn, SlowOn: p.SlowOn}
 		c.Route = w.handlers[p.Handler][p.Kind]
+		c.Byz = p.Canned
 		o.Call = c
 		w.Obs = append(w.Obs, o)
 		w.byID[p.ID] = o
@@ -271,6 +273,15 @@ func (w *World) enter(ctx context.Context, hdr http.Header, spec connect.Spec) *
 	return o
 }
 
+// recvFailure is what a typical handler does with a broken request stream: it
+// returns the error instead of answering.
+func recvFailure(o *CallObs) error {
+	if o.Plan.HErr == nil && o.H.RecvEndSet && o.H.RecvEnd != nil && !errors.Is(o.H.RecvEnd, io.EOF) {
+		return o.H.RecvEnd
+	}
+	return nil
+}
+
 func (w *World) leave(ctx context.Context, o *CallObs, err error) {
 	o.H.Returned = true
 	o.H.ReturnStep = stepsNow(w.S)
@@ -342,7 +353,7 @@ func (d DetailPlan) message() proto.Message {
 		}
 		return durationpb.New(time.Duration(n % (1 << 50)))
 	default:
-		s, _ := structpb.NewStruct(map[string]any{"k": fmt.Sprintf("%x", d.Data), "n": float64(len(d.Data))})
+		s, _ := structpb.NewStruct(map[string]any{"k": fmt.Sprintf("%x", d.Data)}) // one key: proto map order is random
 		return s
 	}
 }
@@ -479,6 +490,9 @@ func (w *World) serveClientStream(ctx context.Context, stream *connect.ClientStr
 		}
 		return nil, io.EOF
 	}})
+	if err = recvFailure(o); err != nil {
+		return nil, err
+	}
 	if err = o.Plan.HErr.build(ctx); err != nil {
 		return nil, err
 	}
@@ -528,6 +542,9 @@ func (w *World) serveBidi(ctx context.Context, stream *connect.BidiStream[Msg, M
 		hdr:  stream.ResponseHeader,
 		trl:  stream.ResponseTrailer,
 	})
+	if err = recvFailure(o); err != nil {
+		return err
+	}
 	err = o.Plan.HErr.build(ctx)
 	return err
 }
